@@ -82,6 +82,8 @@ var (
 	// stream-level constructs between elements
 	TopLevel = []string{
 		"<!-- comment -->", "<?xml version='1.0'?>", "<?pi?>", "<!DOCTYPE x>", "junk", " x ",
+		// white space by Unicode's reckoning, not by XML's: text, not a keep-alive
+		"\u00a0", " \u0085\n", "\u2028",
 		"<stream:error><host-gone xmlns='urn:ietf:params:xml:ns:xmpp-streams'/></stream:error>",
 		"<stream:error><not-authorized xmlns='urn:ietf:params:xml:ns:xmpp-streams'/><text xmlns='urn:ietf:params:xml:ns:xmpp-streams' xml:lang='en'>no</text></stream:error>",
 		"<stream:error><see-other-host xmlns='urn:ietf:params:xml:ns:xmpp-streams'>h.example</see-other-host></stream:error>",
